@@ -22,6 +22,7 @@ class ValidationError(Enum):
     CONTENT_EXPECTED_EMPTY = auto()
     CONTENT_EXPECTED_ENUM = auto()
     CONTENT_EXPECTED_FLOAT = auto()
+    CONTENT_EXPECTED_INT = auto()
     CONTENT_EXPECTED_NONEMPTY = auto()
     CONTENT_EXPECTED_RANGE = auto()
     CONTENT_EXPECTED_STRING = auto()
